@@ -4,6 +4,9 @@ import json, os
 VERIF = os.path.dirname(os.path.dirname(os.path.abspath(__file__)))
 ALL = [f"C{i:02d}" for i in range(1, 20)]
 
+# properties whose model functions are bridged to translator output (DESIGN 13)
+BRIDGED = {"C05", "C06", "C07", "C08", "C09", "C10", "C11", "C12", "C19"}
+
 CLAIMS = {
  "C06": dict(
    text="Lean 4 theorems (Props/C06.lean): the squawk decoder equals the octal identity of bits 20..32 for every digit vector "
@@ -193,7 +196,10 @@ def main():
     for pid in ALL:
         if pid not in CLAIMS:
             continue
-        c = CLAIMS[pid]
+        c = dict(CLAIMS[pid])
+        if pid in BRIDGED:
+            c["technique"] = c["technique"] + "; the model functions involved are proved equal to (or simulated by) definitions the translator regenerates from the Rust source on every run (Proofs/Bridge*.lean)"
+            c["note"] = c["note"] + " Translator (extract/rs2lean.py, rsparse.py): trusted to map the Rust subset to Lean as DESIGN 13 states (u32 as Nat without wrap-around, f64 as exact rationals, log macros dropped); a change to a translated function regenerates its Lean definition and the bridge theorem must still check."
         checks.append({
             "property_id": pid,
             "quick_cmd": f"./check {pid} --tier quick",
@@ -218,7 +224,7 @@ def main():
         "engines": [
             {"name": "lean", "path": "lean/", "serves_properties": sorted(CLAIMS), "kind_free_text": "Lean 4 model, specifications, proofs, compiled model driver"},
             {"name": "harness", "path": "harness/", "serves_properties": sorted(CLAIMS), "kind_free_text": "Rust correspondence harness driving the real code in-process (overflow checks on)"},
-            {"name": "extract", "path": "extract/", "serves_properties": sorted(CLAIMS), "kind_free_text": "source -> Lean tables, regenerated on every run"},
+            {"name": "extract", "path": "extract/", "serves_properties": sorted(CLAIMS), "kind_free_text": "source -> Lean, regenerated on every run: tables (extract.py) and a translator of the decoder's Rust subset to Lean definitions (rsparse.py, rs2lean.py: 101 functions incl. every row-update method)"},
             {"name": "orchestrate", "path": "orchestrate/", "serves_properties": sorted(CLAIMS), "kind_free_text": "generators, comparison, evidence, violation protocol"},
         ],
         "checks": checks,
